@@ -138,6 +138,10 @@ func runC02(k *kernel.K) {
 		case "mutate":
 			req.Header.Set("X-Mutated", fmt.Sprint(id))
 		case "error":
+			if id%2 == 0 {
+				// several errors joined the way martian.MultiError does
+				return fmt.Errorf("reqmod-error-%d\nsecond error line", id)
+			}
 			return fmt.Errorf("reqmod-error-%d", id)
 		case "skip":
 			ctx.SkipRoundTrip()
